@@ -2288,7 +2288,10 @@ impl World {
 		let inflight = {
 			let d = self.nodes[n].disk.lock().unwrap();
 			d.chans.get(&key).map(|c| !c.completions.is_empty()).unwrap_or(false)
-		} || self.nodes[n].unprocessed_completions.contains(&key);
+		} || self.nodes[n].unprocessed_completions.contains(&key)
+			// a deferred ChainMonitor holds queued updates the disk has not even seen yet
+			|| (self.nodes[n].cfg.deferred
+				&& self.nodes[n].live.as_ref().map_or(false, |l| l.monitor.pending_operation_count() > 0));
 		let open = self
 			.mgr(n)
 			.map(|m| m.list_channels().iter().any(|d| d.channel_id.0 == key))
